@@ -224,6 +224,10 @@ def scenarios(judge, quick, rnd):
         dict(pool="factory", nw=2, quota=1, end_sleep=0.05, uar="start", calls=[dict(n=4, chunk=1, ordered=True, lazy=True, stop_sleep=0.2),
                                                                               dict(n=3, chunk=2, ordered=False)]),
     ]
+    # a long history on one pool: more than 256 workers are created (worker ids beyond the small integers an interpreter shares,
+    # ids that went through pickling), with an empty call in between
+    out.append(dict(pool="factory", nw=2, quota=1, calls=[dict(n=130, chunk=1, ordered=True), dict(n=0, chunk=1, ordered=True),
+                                                          dict(n=140, chunk=1, ordered=False)]))
     for _ in range(0 if quick else 24):
         nw = rnd.randint(1, 3)
         s = dict(pool=rnd.choice(["functor", "factory"]), nw=nw, work_sleep=rnd.choice([0, 0.005]),
